@@ -157,6 +157,15 @@ def run(run, replay=None):
     runners = []
     for i, h in enumerate(hists):
         runners.append(run_history(run, bindir, dic, wd, "h%d" % i, h, fails, stats))
+    # histories of several connections at once (requests of one connection are still sent one after the other)
+    for ci in range(3 if thorough else 1):
+        obs, probs = S.concurrent_phase(bindir, dic, wd, "conc%d" % ci, seconds=2.0, clients=4 + 4 * ci,
+                                        env={"CHOKAN_VERIF_DELAY_CONV_LOCK2": "1"} if ci % 2 else None)
+        stats.setdefault("concurrent_pairs", 0)
+        stats["concurrent_pairs"] += obs["pairs"]
+        for kind, what in probs[:1]:
+            fails.append((kind, {"kind": kind, "phase": "concurrent"},
+                          {"history": "%d connections sending GetCandidates + UpdateFrequency pairs" % obs["clients"], "result": what, "completed_pairs": obs["pairs"]}))
     dis = S.compare_with_model(run, runners)
     run.cov["model_disagreements"] = len(dis)
     seen = set()
